@@ -429,7 +429,7 @@ impl Profile {
             19 => Op::Crash { n },
             20 => Op::Restart { n },
             21 => Op::Compact { n, back: a >> 5 },
-            22 => Op::Knob { n, k: a % 8, v: b },
+            22 => Op::Knob { n, k: a % 10, v: b },
             23 => Op::SnapUnavailable { n },
             24 => Op::DeliverTo { n },
             25 => Op::Ping { n },
